@@ -224,7 +224,11 @@ def binop(interp, op, a, b, st, node):
     if name == "add" and a.kind in ("list", "tuple") and b.kind == a.kind:
         if a.items is not None and b.items is not None:
             return (interp.mk_list if a.kind == "list" else interp.mk_tuple)(a.items + b.items)
-        return V(a.kind, T("concat", a.term, b.term), labels=labels, loc=fresh_id())
+        sa0, sb0 = shape_of(a), shape_of(b)
+        ext = None
+        if sa0 is not None and sb0 is not None and len(sa0) == len(sb0) >= 1 and tuple(sa0[1:]) == tuple(sb0[1:]):
+            ext = ("comp", None, (sa0[0] + sb0[0],) + tuple(sa0[1:]))
+        return V(a.kind, T("concat", a.term, b.term), labels=labels, loc=fresh_id(), extra=ext)
     if name == "mul" and a.kind in ("list", "tuple") and b.has_const and isinstance(b.const, int) and a.items is not None:
         return (interp.mk_list if a.kind == "list" else interp.mk_tuple)(a.items * b.const)
     if a.kind == "str" or b.kind == "str":
